@@ -119,6 +119,8 @@ def _gen_js(stratum, rng):
 
 def _window(rng, style):
     if style == "inf":
+        if rng.random() < 0.35:
+            return rng.choice([5, 10, 20, 30]), INF  # opens late, never closes: waiting without a deadline
         return 0, INF
     if style == "loose":
         s = rng.choice([0, 0, 5, 10])
